@@ -83,6 +83,25 @@ def boolOf : Nat → Option Bool
   | 1 => some true
   | _ => none
 
+def outCfg : OutCfg :=
+  { limit := Mixin.Facts.Gen.common_SliceCountLimit,
+    kernelTypes := [Mixin.Facts.Gen.common_OutputTypeWithdrawalSubmit, Mixin.Facts.Gen.common_OutputTypeWithdrawalClaim,
+      Mixin.Facts.Gen.common_OutputTypeNodePledge, Mixin.Facts.Gen.common_OutputTypeNodeCancel,
+      Mixin.Facts.Gen.common_OutputTypeNodeAccept],
+    keyValid := fun k => k < 900 }
+
+/-- `n` outputs: typ amount scriptOk scriptEmpty maskHas maskValid withdrawal nkeys k… -/
+def parseVOuts : Nat → List Nat → Option (List Out × List Nat)
+  | 0, r => some ([], r)
+  | n + 1, typ :: amt :: so :: se :: mh :: mv :: wd :: nk :: r =>
+    if r.length < nk then none else
+    match boolOf so, boolOf se, boolOf mh, boolOf mv, boolOf wd, parseVOuts n (r.drop nk) with
+    | some so, some se, some mh, some mv, some wd, some (os, r') =>
+      some ({ typ := typ, amount := amt, keys := r.take nk, scriptOk := so, scriptEmpty := se,
+              maskHas := mh, maskValid := mv, withdrawal := wd } :: os, r')
+    | _, _, _, _, _, _ => none
+  | _, _ => none
+
 /-- one storage call line → model call -/
 def parseOp (st : St) (t : List String) : Option Op :=
   match t with
@@ -180,6 +199,14 @@ def step (st : St) (t : List String) : St × String :=
         match searchOrder (k + 1) calls st.s dump with
         | some s' => ({ st with s := s' }, "ok|" ++ render s')
         | none => (st, "not-linearizable|" ++ render st.s)
+      | _, _ => (st, "bad-op")
+    | _ => (st, "bad-op")
+  | "vout" :: rest =>
+    -- vout tx fork inputAmount nout {output}*
+    match nats rest with
+    | some (tx :: f :: ia :: nout :: r) =>
+      match boolOf f, parseVOuts nout r with
+      | some fork, some (outs, []) => showRes st (validateOutputs cfg.exc outCfg st.s outs tx ia fork)
       | _, _ => (st, "bad-op")
     | _ => (st, "bad-op")
   | _ =>
